@@ -1,11 +1,417 @@
+import TinsModel.Capture.Spec
 import Driver.Util
-/- line-protocol driver for property C17 (stub until the area is built) -/
+/- line-protocol driver for property C17: model mode (capture model) and spec mode (oracle on the implementation's
+   output).  The op grammar is documented at the top of harness/c17_capture.cpp. -/
 namespace Driver.C17
-open Driver
+open Driver Tins Tins.Capture Tins.Gen.Capture
 
-def step (st : Unit) (_line : String) : Unit × String := (st, "unimplemented")
-def specStep (st : Unit) (_line : String) : Unit × String := (st, "unimplemented")
-def initModel : Unit := ()
-def initSpec : Unit := ()
+/-- annotation of one written frame: what the direct dissector calls and libpcap's filter say about it -/
+structure Ann where
+  ser : Bytes
+  adv : Nat
+  m : Bool            -- pcap_offline_filter with len = advertised size (what the sniffer's filter sees)
+  mo : Bool           -- pcap_offline_filter with len = caplen (what OfflinePacketFilter sees)
+  outs : List (String × String)     -- class ↦ outcome text
+  serThrow : Option String := none
+
+def kvOf (ws : List String) (key : String) : Option String :=
+  ws.findSome? (fun w => if w.startsWith (key ++ "=") then some ((w.drop (key.length + 1)).toString) else none)
+
+def parseInt (s : String) : Option Int :=
+  if s.startsWith "-" then (s.drop 1).toString.toNat?.map (fun n => - (n : Int)) else s.toNat?.map (fun n => (n : Int))
+
+def parseAnn (ws : List String) : Option Ann :=
+  match kvOf ws "s" with
+  | none => none
+  | some s =>
+    if s.startsWith "throw:" then
+      some { ser := [], adv := 0, m := false, mo := false, outs := [], serThrow := some ((s.drop 6).toString) }
+    else do
+      let ser ← parseHex s
+      let adv ← (kvOf ws "adv").bind (·.toNat?)
+      let m ← kvOf ws "m"
+      let mo ← kvOf ws "mo"
+      let outs := ws.filterMap (fun w =>
+        if w.startsWith "p:" then
+          match ((w.drop 2).toString.splitOn "=") with
+          | c :: rest => some (c, "=".intercalate rest)
+          | _ => none
+        else none)
+      pure { ser := ser, adv := adv, m := m == "1", mo := mo == "1", outs := outs }
+
+/-- outcome text ↦ `POut` with the PDU represented by its canonical description -/
+def poutOf (s : String) : POut String :=
+  if s.startsWith "ok:" then .ok ((s.drop 3).toString)
+  else if s == "mal" then .throw .malformedPacket
+  else if s.startsWith "exc:" then .throw (Exc.ofName ((s.drop 4).toString))
+  else .throw (.other ("annotation:" ++ s))
+
+def showTs (t : Timestamp) : String := s!"{t.seconds}.{t.microseconds}"
+
+def joinOr (xs : List String) : String := if xs.isEmpty then "-" else ",".intercalate xs
+
+/-- writer link-type token ↦ DLT through the generated tables (what the implementation's headers say) -/
+def dltOfToken (tok : String) : Option Nat :=
+  let v := (tok.drop 2).toString
+  if tok.startsWith "E:" then (writerEnum.find? (·.1 == v)).map (·.2)
+  else if tok.startsWith "T:" then (dataLinkTypes.find? (·.1 == v)).map (·.2)
+  else if tok.startsWith "N:" then v.toNat?
+  else none
+
+def methodOf (s : String) : Method :=
+  if s == "dispatch" then .dispatch else if s == "exact" then .exact else .loop
+
+structure MState where
+  dlt : Nat := 0
+  tok : String := ""
+  method : Method := .loop
+  writing : Bool := false
+  ws : List Written := []                     -- in write order
+  anns : List ((Bytes × Nat) × Ann) := []     -- keyed by (captured bytes, wire length)
+  file : Option Bytes := none
+
+def initModel : MState := {}
+
+def lookupAnn (st : MState) (f : Frame) : Option Ann :=
+  (st.anns.find? (fun e => e.1.2 == f.len && e.1.1 == f.data)).map (·.2)
+
+/-- the abstract dissector: by table look-up of the direct constructor call's outcome -/
+def parseOracle (st : MState) (cls : String) (b : Bytes) : POut String :=
+  match st.anns.find? (fun e => e.1.1 == b) with
+  | none => .throw (.other "model-missing-annotation")
+  | some e => match e.2.outs.find? (·.1 == cls) with
+    | none => .throw (.other ("model-missing-annotation:" ++ cls))
+    | some o => poutOf o.2
+
+structure ReadOpts where
+  api : String := "next"
+  filt : String := "none"
+  raw : Bool := false
+  maxp : Nat := 0
+  stop : Nat := 0
+  thr : List (Nat × String) := []
+  cbPdu : Bool := false
+
+def parseReadOpts (ws : List String) : ReadOpts :=
+  let thr := match kvOf ws "thr" with
+    | none => []
+    | some t => (t.splitOn ",").filterMap (fun item => match item.splitOn ":" with
+      | [i, k] => i.toNat?.map (fun n => (n, k))
+      | _ => none)
+  { api := (kvOf ws "api").getD "next", filt := (kvOf ws "filt").getD "none", raw := kvOf ws "raw" == some "1",
+    maxp := ((kvOf ws "max").bind (·.toNat?)).getD 0, stop := ((kvOf ws "stop").bind (·.toNat?)).getD 0,
+    thr := thr, cbPdu := kvOf ws "cb" == some "pdu" }
+
+def usesFilter (o : ReadOpts) : Bool := o.filt == "cfg" || o.filt == "ctor" || o.filt == "post"
+
+/-- the scripted functor of the harness -/
+def scriptCb (o : ReadOpts) (hist : List (String × Timestamp)) (_p : String × Timestamp) : CbOut :=
+  let i := hist.length
+  match o.thr.find? (·.1 == i) with
+  | some (_, "mal") => .throw .malformedPacket
+  | some (_, "nf") => .throw .pduNotFound
+  | _ => if o.stop != 0 && i + 1 == o.stop then .stop else .continue_
+
+def showPkt (withTs : Bool) (p : String × Timestamp) : String :=
+  (if withTs then showTs p.2 else "-") ++ ":" ++ p.1
+
+def showEnd : End → String
+  | .eof => "eof"
+  | .escape e => "escape:" ++ e.name
+  | .fault i n => s!"FAULT model read of byte {i} of {n}"
+
+def modelRead (st : MState) (ws : List String) : String :=
+  let o := parseReadOpts ws
+  match st.file with
+  | none => "read open=nofile"
+  | some bytes =>
+  match openFile bytes with
+  | none => "read open=throw:pcap_error"
+  | some op =>
+    let pre := s!"read open=ok dlt={op.dlt}"
+    let filter : Frame → Bool := fun f =>
+      if usesFilter o then (match lookupAnn st f with | some a => a.m | none => false) else true
+    let src : Source := ⟨op.frames, op.err⟩
+    let fuel := op.frames.length + 2
+    match selectHandler o.raw op.dlt with
+    | .error e => s!"{pre} pkts=- end=escape:{e} rest=- end2=- live=0"
+    | .ok hk =>
+      match runHandler (parseOracle st) hk with
+      | none => s!"{pre} model-unknown-handler"
+      | some handler =>
+        let drain := fun (s : Source) => sniffAll st.method filter handler fuel s
+        if o.api == "next" then
+          let r := drain src
+          s!"{pre} pkts={joinOr (r.1.map (showPkt true))} end={showEnd r.2.1} rest=- end2=- live=0"
+        else
+          let isLoop := o.api == "loop"
+          let catches := if isLoop then sniffLoopCatches else []
+          let o' := if isLoop then o else { o with thr := [], maxp := 0 }
+          let r := sniffLoop st.method filter handler catches (scriptCb o') fuel src o'.maxp []
+          let first := joinOr (r.2.1.map (showPkt (!(isLoop && o.cbPdu))))
+          let fin := fun (e1 : String) =>
+            let d := drain r.2.2
+            s!"{pre} pkts={first} end={e1} rest={joinOr (d.1.map (showPkt true))} end2={showEnd d.2.1} live=0"
+          match r.1 with
+          | .escape e => s!"{pre} pkts={first} end=escape:{e.name} rest=- end2=- live=0"
+          | .cbEscape e => s!"{pre} pkts={first} end=escape:{e.name} rest=- end2=- live=0"
+          | .fault i n => s!"{pre} pkts={first} end=FAULT model read of byte {i} of {n}"
+          | .exhausted => fin (if isLoop then "returned" else "exhausted")
+          | .stopped => fin (if isLoop then "returned" else "break")
+          | .maxReached => fin "returned"
+
+def modelOffline (st : MState) (_ws : List String) : String :=
+  if !st.tok.startsWith "T:" then "offline unsupported-link-type-token" else
+  match st.file with
+  | none => "offline nofile"
+  | some bytes =>
+    match openFile bytes with
+    | none => "offline bits= escape:pcap_error"
+    | some op =>
+      let bits := op.frames.map (fun f => match lookupAnn st f with
+        | some a => if a.mo then "1" else "0"
+        | none => "?")
+      "offline bits=" ++ (if bits.isEmpty then "-" else "".intercalate bits)
+
+def step (st : MState) (line : String) : MState × String :=
+  let ws := words line
+  match ws with
+  | "file" :: tok :: meth :: _ =>
+    match dltOfToken tok with
+    | none => (st, "bad-op")
+    | some d => ({ dlt := d, tok := tok, method := methodOf meth, writing := true }, "file ok")
+  | "w" :: _how :: sec :: usec :: _hex :: rest =>
+    if !st.writing then (st, "w nowriter") else
+    match parseInt sec, parseInt usec, parseAnn rest with
+    | some s, some u, some a =>
+      match a.serThrow with
+      | some e => (st, "w throw:" ++ e)
+      | none =>
+        let w : Written := { ts := Timestamp.ofTimeval ⟨s, u⟩, ser := a.ser, adv := a.adv }
+        let r := writePacket w.ts w.ser w.adv
+        ({ st with ws := st.ws ++ [w], anns := ((r.data, r.len), a) :: st.anns }, "w ok")
+    | _, _, _ => (st, "bad-op")
+  | ["close"] =>
+    let bytes := writtenFile st.dlt st.ws
+    ({ st with writing := false, file := some bytes },
+     s!"close size={bytes.length} fnv={fnv bytes} snaplen={writerSnaplen} linktype={dltToLinktype st.dlt}")
+  | ["rotate"] =>
+    if !st.writing then (st, "rotate nowriter") else
+    let bytes := writtenFile st.dlt st.ws
+    ({ st with writing := false, file := some bytes },
+     s!"rotate size={bytes.length} fnv={fnv bytes} snaplen={writerSnaplen} linktype={dltToLinktype st.dlt} leak=0")
+  | ["chop", k] =>
+    match st.file, k.toNat? with
+    | some bytes, some k =>
+      let n := bytes.length - k
+      ({ st with file := some (bytes.take n) }, s!"chop size={n}")
+    | _, _ => (st, "chop nofile")
+  | "read" :: rest => (st, modelRead st rest)
+  | "offline" :: rest => (st, modelOffline st rest)
+  | _ => (st, "bad-op")
+
+/-! ## spec mode: the oracle, evaluated on the implementation's own output -/
+
+structure OFrame where
+  sec : Int
+  usec : Int
+  ann : Ann
+
+structure OState where
+  tok : String := ""
+  frames : List OFrame := []        -- frames whose `w` the implementation acknowledged, in order
+  size : Nat := 0                   -- current size of the file (after chop)
+  closed : Bool := false
+  unspecified : Bool := true
+
+def initSpec : OState := {}
+
+/-- link types by their registered numbers (tcpdump.org link-layer header types), independent of libtins' headers -/
+def specDlt (tok : String) : Option Nat :=
+  match tok with
+  | "E:ETH2" => some 1 | "E:DOT3" => some 1 | "E:SLL" => some 113 | "E:RADIOTAP" => some 127 | "E:DOT11" => some 105
+  | "T:EthernetII" => some 1 | "T:Dot3" => some 1 | "T:SLL" => some 113 | "T:Loopback" => some 0
+  | "T:PPI" => some 192 | "T:Dot11" => some 105 | "T:RadioTap" => some 127 | "T:IP" => some 12
+  | _ => if tok.startsWith "N:" then (tok.drop 2).toString.toNat? else none
+
+/-- LINKTYPE_ value a file header carries for a DLT (LINKTYPE_RAW = 101) -/
+def specLinktype (dlt : Nat) : Nat := if dlt = 12 then 101 else dlt
+
+/-- the dissector classes that can be meant by "the frame parses" for a link type; more than one = the standards
+    leave the choice open (Ethernet length/type values 1501..2047, frames too short to carry the field) -/
+def specClasses (dlt : Nat) (b : Bytes) : Option (List String) :=
+  match dlt with
+  | 1 =>
+    match b[12]?, b[13]? with
+    | some hi, some lo =>
+      let v := hi.toNat * 256 + lo.toNat
+      if v ≤ 1500 then some ["Dot3"] else if v ≥ 2048 then some ["EthernetII"] else some ["Dot3", "EthernetII"]
+    | _, _ => some ["Dot3", "EthernetII"]
+  | 0 => some ["Loopback"]
+  | 113 => some ["SLL"]
+  | 192 => some ["PPI"]
+  | 127 => some ["RadioTap"]
+  | 105 => some ["Dot11"]
+  | 12 =>
+    match b[0]? with
+    | some x => if x.toNat / 16 = 4 then some ["IP"] else if x.toNat / 16 = 6 then some ["IPv6"] else some []
+    | none => some []
+  | _ => none
+
+inductive Expect where
+  | pkt (desc : String)      -- the frame must come back as this packet
+  | skip                     -- the frame must be skipped
+  | open_                    -- the property does not say
+
+def expectOf (dlt : Nat) (raw : Bool) (a : Ann) : Expect :=
+  if raw then .pkt s!"0/{a.ser.length}/{fnv a.ser}"        -- identical bytes, checked without the annotation
+  else match specClasses dlt a.ser with
+    | none => .open_
+    | some [] => .skip
+    | some cs =>
+      let outs := cs.map (fun c => (a.outs.find? (·.1 == c)).map (·.2))
+      match outs with
+      | some o :: rest =>
+        if rest.all (· == some o) then
+          (if o.startsWith "ok:" then .pkt ((o.drop 3).toString) else .skip)
+        else .open_
+      | _ => .open_
+
+/-- expected text of a packet; `none` when the time stamp is outside what the file format can hold -/
+def expectTs (f : OFrame) : Option String :=
+  let t := f.sec * 1000000 + f.usec
+  if t < 0 then none
+  else
+    let n := t.toNat
+    if n / 1000000 ≥ 2147483648 then none else some s!"{n / 1000000}.{n % 1000000}"
+
+def survivors (st : OState) : List OFrame × Bool :=
+  -- the frames wholly inside the first `size` bytes, and whether the file ends exactly at a record boundary
+  let rec go (fs : List OFrame) (off : Nat) (acc : List OFrame) : List OFrame × Bool :=
+    match fs with
+    | [] => (acc.reverse, true)
+    | f :: rest =>
+      let nxt := off + 16 + f.ann.ser.length
+      if nxt ≤ st.size then go rest nxt (f :: acc) else (acc.reverse, off == st.size)
+  go st.frames 24 []
+
+def splitItems (s : String) : List String := if s == "-" then [] else s.splitOn ","
+
+def checkRead (st : OState) (ws : List String) (ow : List String) : String :=
+  let o := parseReadOpts ws
+  match specDlt st.tok with
+  | none => "unspecified"
+  | some dlt =>
+  match kvOf ow "open" with
+  | none => "violates unparsable-output"
+  | some opn =>
+    if st.size < 24 then (if opn.startsWith "throw:" then "ok" else "violates open-of-headerless-file")
+    else if opn != "ok" then s!"violates open {opn}"
+    else if kvOf ow "dlt" != some (toString dlt) then s!"violates link-type expected={dlt}"
+    else
+    match kvOf ow "pkts", kvOf ow "end", kvOf ow "rest", kvOf ow "end2", kvOf ow "live" with
+    | some pk, some e1, some rs, some e2, some live =>
+      if e1.startsWith "escape:" then s!"violates loop-no-escape {e1}"
+      else if e2.startsWith "escape:" then s!"violates loop-no-escape {e2}"
+      else if !(e1 == "eof" || e1 == "returned" || e1 == "exhausted" || e1 == "break") then s!"violates clean-end {e1}"
+      else if !(e2 == "eof" || e2 == "-") then s!"violates clean-end {e2}"
+      else if live != "0" then s!"violates pdu-leak live={live}"
+      else
+        let (fr, _) := survivors st
+        let fr := fr.filter (fun f => !usesFilter o || f.ann.m)
+        let exps := fr.map (fun f => (expectOf dlt o.raw f.ann, expectTs f))
+        if exps.any (fun e => match e.1 with | .open_ => true | _ => false) then "unspecified" else
+        let want := exps.filterMap (fun e => match e.1 with | .pkt d => some (d, e.2) | _ => none)
+        let first := splitItems pk
+        let got := first ++ splitItems rs
+        if got.length != want.length then s!"violates frames-out count got={got.length} want={want.length}"
+        else
+          let bad := (got.zip want).findIdx? (fun (g, (d, ts)) =>
+            match g.splitOn ":" with
+            | t :: gdParts =>
+              let gd := ":".intercalate gdParts
+              gd != d || (match ts with | some x => t != x && t != "-" | none => false)
+            | _ => true)
+          match bad with
+          | some i => s!"violates frames-out packet#{i}"
+          | none =>
+            -- how many packets the functor / loop body must have seen
+            let n := want.length
+            let k :=
+              if o.api == "next" then n
+              else
+                let isLoop := o.api == "loop"
+                let rec cnt (i : Nat) (fuel : Nat) : Nat :=
+                  match fuel with
+                  | 0 => i
+                  | fuel + 1 =>
+                    if i ≥ n then n
+                    else
+                      let thrown := isLoop && o.thr.any (·.1 == i)
+                      if !thrown && o.stop != 0 && i + 1 == o.stop then i + 1
+                      else if isLoop && o.maxp != 0 && i + 1 == o.maxp then i + 1
+                      else cnt (i + 1) fuel
+                cnt 0 (n + 1)
+            if first.length != k then s!"violates delivered-count got={first.length} want={k}" else "ok"
+    | _, _, _, _, _ => "violates unparsable-output"
+
+def checkOffline (st : OState) (ow : List String) : String :=
+  match ow with
+  | ["offline", b] =>
+    if st.size < 24 then "unspecified" else
+    match (b.splitOn "=") with
+    | ["bits", bits] =>
+      let (fr, _) := survivors st
+      let want := "".intercalate (fr.map (fun f => if f.ann.mo then "1" else "0"))
+      let want := if want.isEmpty then "-" else want
+      if bits == want then "ok" else s!"violates offline-filter want={want}"
+    | _ => "violates unparsable-output"
+  | "offline" :: "unsupported-link-type-token" :: _ => "unspecified"
+  | _ => if st.size < 24 then "unspecified" else "violates offline-filter-escape"
+
+def specStep (st : OState) (line : String) : OState × String :=
+  match line.splitOn " ||| " with
+  | [op, out] =>
+    let ws := words op
+    let ow := words out
+    match ws with
+    | "file" :: tok :: _ =>
+      let st' : OState := { tok := tok, unspecified := false }
+      (st', if ow == ["file", "ok"] then "ok" else "violates writer-open")
+    | "w" :: _how :: sec :: usec :: _hex :: rest =>
+      if st.unspecified then (st, "unspecified") else
+      match parseInt sec, parseInt usec, parseAnn rest with
+      | some s, some u, some a =>
+        match a.serThrow with
+        | some _ => (st, "unspecified")              -- the serializer refused: not a C17 matter
+        | none =>
+          if ow == ["w", "ok"] then ({ st with frames := st.frames ++ [⟨s, u, a⟩] }, "ok")
+          else ({ st with unspecified := true }, s!"violates write {" ".intercalate ow}")
+      | _, _, _ => ({ st with unspecified := true }, "unspecified")
+    | [closeOp] =>
+      if closeOp != "close" && closeOp != "rotate" then (st, "unspecified") else
+      if st.unspecified then (st, "unspecified") else
+      if closeOp == "rotate" && kvOf ow "leak" != some "0" then
+        ({ st with unspecified := true }, "violates writer-reassign-leak") else
+      let want := 24 + (st.frames.map (fun f => 16 + f.ann.ser.length)).sum
+      let st' := { st with size := want, closed := true }
+      match (kvOf ow "size").bind (·.toNat?), (kvOf ow "snaplen").bind (·.toNat?), (kvOf ow "linktype").bind (·.toNat?) with
+      | some sz, some snap, some lt =>
+        if sz != want then (st', s!"violates file-size want={want}")
+        else if (specDlt st.tok).map specLinktype != some lt then (st', s!"violates file-linktype got={lt}")
+        else if st.frames.any (fun f => f.ann.ser.length > snap) then
+          (st', s!"violates file-snaplen declared={snap}")
+        else (st', "ok")
+      | _, _, _ => (st', "violates unparsable-output")
+    | ["chop", k] =>
+      match k.toNat? with
+      | some k => ({ st with size := st.size - k }, "ok")
+      | none => (st, "unspecified")
+    | "read" :: rest =>
+      if st.unspecified || !st.closed then (st, "unspecified") else (st, checkRead st rest ow)
+    | "offline" :: _ =>
+      if st.unspecified || !st.closed then (st, "unspecified") else (st, checkOffline st ow)
+    | _ => (st, "unspecified")
+  | _ => (st, "bad-line")
 
 end Driver.C17
